@@ -325,10 +325,17 @@ Definition mock_classes (sc : schema) (ws : list (str * walk)) : list str :=
   sort_strs (if mem_str cls_redeclared cl
              then filter (fun c => negb (str_eqb c cls_type || str_eqb c cls_selector || str_eqb c cls_unused)) cl else cl).
 
+(* the example table is printed raw into Go interpreted string literals (mock_generator.go:73-77): a text
+   with a backslash is either refused (unparsable source) or denotes another string than the annotation
+   says.  Go's escape grammar is not modelled: such cases are left to the oracle (z3:mock-example-go-escape). *)
+Definition ex_has_backslash (ex : extab) : bool :=
+  existsb (fun e => existsb (fun v => existsb (fun c => Ascii.eqb c (ch 92)) v) (snd e)) ex.
+
 Definition predict_C20 (c : mcase) : json :=
   let '(sc, ex, ft) := c in
   if negb (one_package sc) then JObj [(s "unmodelled", JStr (s "generated files in several Go packages"))]
   else if negb (accepted sc) then JObj [(s "unmodelled", JStr (s "annotation placement the generation-time validators refuse"))]
+  else if ex_has_backslash ex then JObj [(s "unmodelled", JStr (s "an example text with a backslash (Go escape sequences are not modelled)"))]
   else match rpc_walks sc ex ft with
        | None => JObj [(s "unmodelled", JStr (s "response type outside the model (a well-known type other than Timestamp)"))]
        | Some ws =>
